@@ -32,6 +32,10 @@ static bool probe(void* ctx, int done, int total) {
   return false;
 }
 
+// handles a program's build() wants re-checked after the (possibly cancelled) evaluation: other handles that share
+// already evaluated nodes with the expression ("already evaluated operands are untouched")
+static std::vector<Manifold> g_extra;
+
 struct Program {
   std::string name;
   std::function<std::vector<Manifold>()> operands;                          // evaluated leaves
@@ -85,6 +89,22 @@ static std::vector<Program> programs(bool thorough) {
                }, statusEval});
   P.push_back({"deep chain with transforms", leaves, [](const std::vector<M>& o) {
                  return ((((o[0] + o[1]).Translate({0.1, 0, 0}) - o[2]).Rotate(10, 0, 0) ^ (o[4] + o[0])) + o[5]).Scale({1, 1.2, 1});
+               }, statusEval});
+  // a shared sub-expression that was ALREADY evaluated through another tree (its op node carries a cached result),
+  // then used in a new expression whose evaluation is cancelled: the other handles must keep their value
+  P.push_back({"pre-evaluated shared s=(A+B) via t=s-C; u=s^(D+E)", leaves, [](const std::vector<M>& o) {
+                 M s = o[0] + o[1];
+                 M t = s - o[2];
+                 (void)t.Status();
+                 g_extra = {s, t};
+                 return s ^ (o[3] + o[4]);
+               }, statusEval});
+  P.push_back({"pre-evaluated shared s=(A-B) via t=s.T+C; u=Batch+[D,s,E]", leaves, [](const std::vector<M>& o) {
+                 M s = o[0] - o[1];
+                 M t = s.Translate({0.2, 0, 0}) + o[2];
+                 (void)t.NumTri();
+                 g_extra = {s, t};
+                 return M::BatchBoolean({o[3], s, o[4]}, OpType::Add);
                }, statusEval});
   P.push_back({"leaf Status (no work)", leaves, [](const std::vector<M>& o) { return o[1]; }, statusEval});
   // eager geometry ops
@@ -143,6 +163,7 @@ static std::vector<Program> programs(bool thorough) {
 }
 
 struct RunResult {
+  std::vector<Manifold> extra;
   Manifold r, expr;
   std::vector<Manifold> ops;
   std::vector<uint64_t> opFp;
@@ -157,7 +178,9 @@ static RunResult runOnce(const Program& p, long fireAt) {
   RunResult R;
   R.ops = p.operands();
   for (auto& o : R.ops) R.opFp.push_back(fingerprint(o, true));
+  g_extra.clear();
   R.expr = p.build(R.ops);
+  R.extra = g_extra;
   g_count = 0;
   g_fire = fireAt;
   g_progress.clear();
@@ -206,9 +229,11 @@ int main(int argc, char** argv) {
   std::vector<uint64_t> ref(np);
   std::vector<uint64_t> offs(np + 1, 0);
   std::vector<char> refProgressBad(np, 0);
+  std::vector<std::vector<uint64_t>> refExtra(np);
   for (int i = 0; i < np; ++i) {
     RunResult r = runOnce(P[i], 0);
     refProgressBad[i] = !progressProblem(r.progress).empty();
+    for (auto& x : r.extra) refExtra[i].push_back(fingerprint(x, false));
     N[i] = r.checks;
     ref[i] = fingerprint(r.r, false);
     offs[i + 1] = offs[i] + N[i];
@@ -288,6 +313,11 @@ int main(int argc, char** argv) {
     if (!pp.empty()) V("progress", pp);
     for (size_t i = 0; i < a.ops.size(); ++i)
       if (fingerprint(a.ops[i], true) != a.opFp[i]) V("operand-changed", "operand " + std::to_string(i) + " changed by the cancelled evaluation");
+    // other handles sharing already evaluated nodes with the expression keep their value
+    for (size_t i = 0; i < a.extra.size() && i < refExtra[pi].size(); ++i)
+      if (fingerprint(a.extra[i], false) != refExtra[pi][i])
+        V("shared-handle-changed", "handle #" + std::to_string(i) + " sharing an evaluated sub-expression changed: status " +
+                                       std::to_string((int)a.extra[i].Status()) + ", " + std::to_string(a.extra[i].NumTri()) + " triangles");
     // the expression handle itself, queried again without a context
     {
       auto st2 = a.expr.Status();
